@@ -57,6 +57,15 @@ chk("C17","model_checking",
     "Bounded by sequence length and the listed alphabets; calls after write_end are outside the statement ('up to write_end'). The wrapping-profile run happens in a child process whose death would be reported as a machinery failure, not a verdict.",
     "exhaustive enumeration of call sequences (depth-bounded) over out-of-domain alphabets on the real muxer, two build profiles","§3 C17")
 
+chk("C03","model_checking",
+    "Every consistent table set up to the bound is reference-encoded from a logical movie by an encoder that shares no code with the library (all compositions of N samples into chunks x every run-length encoding of the chunk map x stco/co64 x every size vector over {0,1,2} and constant sizes; every delta/offset vector with every run splitting and both ctts versions; every sync subset; every interleaving of two tracks' chunks and every chunk order; the complete cross product for small N; all 5x5 codec pairs) and every id 0..N+2, u32::MAX is looked up through sample_offset and read_sample and compared with the statement's formula evaluated on the logical movie.",
+    "Bounded by N (6 quick / 8 thorough per family; cross product N<=2/3). 'Randomly for large N' of the quantifier is not covered. Trusted: refmp4 reference encoder (validated in the other direction by C02/C05 and by the canned files).",
+    "exhaustive enumeration of input shapes (bounded N) against an independent reference model, on the real reader","§3 C03")
+chk("C09","model_checking",
+    "Logical fragmented movies are enumerated (1-3 fragments; one or two tracks per fragment in both orders; run lengths 0..3; explicit base at the moof or at the data / default-base-is-moof / neither; with and without trun data offset, data before or after the moof (negative offsets); fragment default duration, per-sample durations, composition offsets absent/v0/v1; tfdt v0/v1 with base times 0, 5, 2^32+5; movie-level defaults; 32/64-bit moof headers), reference-encoded, opened both as one stream and as initialization segment + separately opened media segment, and every id is compared with the statement's formula.",
+    "Bounded as listed in the evidence (families 1-3). One trun per traf. A known finding (single trex) is listed in known_findings.json by predicate.",
+    "exhaustive enumeration of input shapes (bounded) against an independent reference model, on the real reader, two delivery modes","§3 C09")
+
 NA={}
 m={"version":1,
    "setup_cmd":"cd harness && CARGO_NET_OFFLINE=true cargo build --offline --release && CARGO_NET_OFFLINE=true cargo build --offline --profile wrapping",
